@@ -219,3 +219,97 @@ pub open spec fn from_cache<Db: Database, St: Storable>(m: &StorageManager<Db>, 
 pub open spec fn needs_db<Db: Database, St: Storable>(m: &StorageManager<Db>, id: St::StorageKey) -> bool {
     !(m.transaction.spec_active() && m.transaction.spec_get::<St>(id) is Some) && !(m.cache is Some && m.cache->Some_0.spec_hit::<St>(id) is Some)
 }
+
+// ---- L-MERGE (C15): the pending-wins rule of the manager equals the same query on the merged data (database overridden by the pending
+// records of the same (user, epoch) key), i.e. what the query returns once the transaction is committed.
+pub open spec fn q_matches(y: ValueState, flag: ValueStateRetrievalFlag) -> bool {
+    match flag {
+        ValueStateRetrievalFlag::SpecificVersion(v) => y.version == v,
+        ValueStateRetrievalFlag::SpecificEpoch(e) => y.epoch == e,
+        ValueStateRetrievalFlag::LeqEpoch(e) => y.epoch <= e,
+        ValueStateRetrievalFlag::MaxEpoch => true,
+        ValueStateRetrievalFlag::MinEpoch => true,
+    }
+}
+pub open spec fn q_pref(x: ValueState, y: ValueState, flag: ValueStateRetrievalFlag) -> bool {
+    match flag {
+        ValueStateRetrievalFlag::SpecificVersion(_) => x.epoch == y.epoch,
+        ValueStateRetrievalFlag::SpecificEpoch(_) => true,
+        ValueStateRetrievalFlag::LeqEpoch(_) => x.epoch >= y.epoch,
+        ValueStateRetrievalFlag::MaxEpoch => x.epoch >= y.epoch,
+        ValueStateRetrievalFlag::MinEpoch => x.epoch <= y.epoch,
+    }
+}
+// r answers `flag` over the states of one user in `xs` (one state per epoch)
+pub open spec fn is_query(xs: spec_fn(ValueState) -> bool, flag: ValueStateRetrievalFlag, r: Option<ValueState>) -> bool {
+    match r {
+        Some(x) => xs(x) && q_matches(x, flag) && forall|y: ValueState| #![trigger xs(y)] xs(y) && q_matches(y, flag) ==> q_pref(x, y, flag),
+        None => forall|y: ValueState| #![trigger xs(y)] xs(y) ==> !q_matches(y, flag),
+    }
+}
+// the data after commit: pending records plus the database records whose epoch has no pending record
+pub open spec fn merged(s: spec_fn(ValueState) -> bool, t: spec_fn(ValueState) -> bool) -> spec_fn(ValueState) -> bool {
+    |x: ValueState| t(x) || (s(x) && forall|u: ValueState| #![trigger t(u)] t(u) ==> u.epoch != x.epoch)
+}
+pub open spec fn one_per_epoch(xs: spec_fn(ValueState) -> bool) -> bool {
+    forall|a: ValueState, b: ValueState| #![trigger xs(a), xs(b)] xs(a) && xs(b) && a.epoch == b.epoch ==> a == b
+}
+pub open spec fn wf_data(s: spec_fn(ValueState) -> bool, t: spec_fn(ValueState) -> bool) -> bool {
+    one_per_epoch(s) && one_per_epoch(t)
+    && (forall|a: ValueState, b: ValueState| #![trigger s(a), t(b)] s(a) && t(b) ==> wf_pair(a, b))
+}
+pub open spec fn merge_answer(d: Option<ValueState>, t: Option<ValueState>, flag: ValueStateRetrievalFlag) -> Option<ValueState> {
+    match t {
+        Some(tv) => match d { Some(dv) => if txn_wins(tv, dv.epoch, flag) { Some(tv) } else { Some(dv) }, None => Some(tv) },
+        None => d,
+    }
+}
+// alarm: C15
+pub proof fn lemma_merge(s: spec_fn(ValueState) -> bool, t: spec_fn(ValueState) -> bool, flag: ValueStateRetrievalFlag, d: Option<ValueState>, tv: Option<ValueState>)
+    requires wf_data(s, t), is_query(s, flag, d), is_query(t, flag, tv)
+    ensures is_query(merged(s, t), flag, merge_answer(d, tv, flag))
+{
+    let m = merged(s, t);
+    let r = merge_answer(d, tv, flag);
+    match r {
+        None => {
+            assert forall|y: ValueState| #![trigger m(y)] m(y) implies !q_matches(y, flag) by {
+                if t(y) { } else { assert(s(y)); }
+            }
+        }
+        Some(x) => {
+            // x is in the merged data
+            if tv is Some && x == tv->Some_0 {
+                assert(t(x));
+            } else {
+                // the database answer survives: no pending record has its epoch
+                let dv = d->Some_0;
+                assert(x == dv && s(dv));
+                assert forall|u: ValueState| #![trigger t(u)] t(u) implies u.epoch != dv.epoch by {
+                    if u.epoch == dv.epoch {
+                        assert(wf_pair(dv, u));
+                        // u matches the flag whenever dv does (same epoch, same version), so the pending answer exists and would have won
+                        assert(q_matches(u, flag));
+                        assert(tv is Some);
+                        let tq = tv->Some_0;
+                        assert(q_pref(tq, u, flag));
+                        assert(wf_pair(dv, tq));
+                    }
+                }
+            }
+            assert(m(x));
+            assert forall|y: ValueState| #![trigger m(y)] m(y) && q_matches(y, flag) implies q_pref(x, y, flag) by {
+                if t(y) {
+                    let tq = tv->Some_0;
+                    assert(q_pref(tq, y, flag));
+                    if d is Some { assert(wf_pair(d->Some_0, tq)); assert(wf_pair(d->Some_0, y)); }
+                } else {
+                    assert(s(y));
+                    let dv = d->Some_0;
+                    assert(q_pref(dv, y, flag));
+                    if tv is Some { assert(wf_pair(dv, tv->Some_0)); assert(wf_pair(y, tv->Some_0)); }
+                }
+            }
+        }
+    }
+}
